@@ -525,7 +525,7 @@ func main() {
 		ps["executed"] += tuples.Load()
 		ps["patch_applied"] += applied.Load()
 	}
-	for _, k := range []string{"default", "ignore", "explicit", "nodev", "depth=1", "depth=2", "minsev", "nointroduce"} {
+	for _, k := range []string{"default", "ignore", "explicit", "nodev", "devkept", "depth=1", "depth=2", "minsev", "nointroduce"} {
 		perOption[k] = &[2]atomic.Int64{}
 	}
 
@@ -559,13 +559,13 @@ func main() {
 	r.Assume("the in-memory deps.dev LocalClient and the npm/Maven resolvers of deps.dev/util/resolve are the resolution semantics (the same ones the repository's own tests use)")
 	r.Assume("vulnerability matching uses the repository's IsAffected (decided separately by C18)")
 	rule := "For every tuple (universe, manifest, vulnerability set, upgrade config, option variant) of the bounded product below, npm/relax and Maven/override, MaxUpgrades=1: run 1 = FixVulns on the manifest file; run 2 = fresh FixVulns (fresh clients, same filter options, every upgrade level none) on the file run 1 wrote. (A) if run 1 applied one patch P: ids(run2 vulns) = ids(run1 vulns) - ids(P.Fixed) + ids(P.Introduced); (B) if run 1 applied no patch: the re-read requirement list equals the original; (C) in run 1 and in a run with MaxUpgrades=0 no vulnerability is both in the Fixed list of a reported patch and Unactionable; (D) with no-introduce P.Introduced is empty; (F) the ids listed by run 1 / run 2 equal the harness's independent reference analysis (deps.dev resolver + IsAffected + documented filters) of the original / written manifest; no panic, no tuple longer than 120 s. " +
-		"Bound (" + r.Tier + ", Lite lists): " + b.Describe() + "; upgrade configs {major},{patch},{minor,first package:none},{major,last package:none} (the last package is the vulnerable transitive one in the chain shapes); shapes " + strings.Join(u.FixShapes, ", ") + " of verif/universe/gen.go, each the full product of its lists, times the option variants of universe.OptionVariants (default, ignore=[Vi], explicit=[Vi], dev-deps off with requirement i marked dev, max depth 1, max depth 2, min severity 5.0 with V1 low/V2 high and vice versa, no-introduce), enumerated simplest first."
+		"Bound (" + r.Tier + ", Lite lists): " + b.Describe() + "; upgrade configs {major},{patch},{minor,first package:none},{major,last package:none} (the last package is the vulnerable transitive one in the chain shapes); shapes " + strings.Join(u.FixShapes, ", ") + " of verif/universe/gen.go, each the full product of its lists, times the option variants of universe.OptionVariants (default, ignore=[Vi], explicit=[Vi], dev-deps off with requirement i marked dev, requirement i marked dev with dev-deps on, max depth 1, max depth 2, min severity 5.0 with V1 low/V2 high and vice versa, no-introduce), enumerated simplest first."
 	os.RemoveAll(scratchRoot)
 	r.Finish(rule, exhaustive)
 }
 
 func optClass(name string) string {
-	for _, k := range []string{"ignore", "explicit", "nodev", "minsev"} {
+	for _, k := range []string{"ignore", "explicit", "nodev", "devkept", "minsev"} {
 		if strings.HasPrefix(name, k) {
 			return k
 		}
